@@ -168,7 +168,13 @@ func workerMain() {
 	}
 	debug.SetMaxStack(256 << 20)
 	in := bufio.NewReaderSize(os.Stdin, 1<<20)
-	out := bufio.NewWriter(os.Stdout)
+	// the protocol keeps the real stdout; the code under test prints to /dev/null
+	proto := os.Stdout
+	if dn, err := os.OpenFile(os.DevNull, os.O_WRONLY, 0); err == nil {
+		os.Stdout = dn
+		os.Stderr = dn
+	}
+	out := bufio.NewWriter(proto)
 	for {
 		line, err := in.ReadString('\n')
 		if len(line) > 0 {
@@ -294,6 +300,12 @@ func Main(gen Generator) {
 		p := &pool{}
 		n := 0
 		emit := func(kind, fn string, args ...string) {
+			if kind == "T" {
+				// oracle table entry for the model runner (e.g. a codec input/output pair
+				// computed by the generator with the real codec): not executed
+				fmt.Fprintf(out, "T\t%s\t%s\n", fn, strings.Join(args, "\t"))
+				return
+			}
 			c := Case{Kind: kind, Fn: fn, Args: args}
 			obs := p.exec(c)
 			fmt.Fprintf(out, "%s\t=>\t%s\n", c.Head(), obs)
